@@ -72,7 +72,7 @@ func extra11C18(c *Ctx) {
 		n++
 		ok := false
 		why := "the return is neither behind the empty-logits test nor the hand-on of Sampler.sample's error"
-		for _, a := range g.AtomsAt(ex.Loc) {
+		for _, a := range factsAt(info, f.Body, g, ex.Loc) {
 			be, isB := ast.Unparen(a.Expr).(*ast.BinaryExpr)
 			if !isB {
 				continue
@@ -81,7 +81,7 @@ func extra11C18(c *Ctx) {
 			if _, isC := core.ConstInt(info, x); isC {
 				x, y, op = y, x, flip(op)
 			}
-			lc, isL := ast.Unparen(x).(*ast.CallExpr)
+			lc, isL := resolveLocal(info, f.Body, x).(*ast.CallExpr)
 			v, isC := core.ConstInt(info, y)
 			if !isL || !isC || core.CalleeName(info, lc) != "builtin.len" || len(lc.Args) != 1 || !isIdentOf(info, lc.Args[0], logits) {
 				continue
@@ -173,11 +173,14 @@ func extra11C08(c *Ctx) {
 					continue
 				}
 				sized := false
-				for _, call := range core.Calls(cb.Cond, false) {
-					if strings.HasSuffix(core.CalleeName(info, call), "FileInfo.Size") {
-						sized = true
+				ast.Inspect(cb.Cond, func(m ast.Node) bool {
+					if e, isE := m.(ast.Expr); isE {
+						if call, isC := resolveLocal(info, f.Body, e).(*ast.CallExpr); isC && strings.HasSuffix(core.CalleeName(info, call), "FileInfo.Size") {
+							sized = true
+						}
 					}
-				}
+					return !sized
+				})
 				cl := g.CondLoc(cb.B)
 				if !sized || !g.Dominates(cl, h.Loc) {
 					continue
@@ -262,6 +265,12 @@ func extra11C05(c *Ctx) {
 					return !found
 				})
 				return found
+			}
+			for _, a := range c.G(f).AtomsAt(c.G(f).Locate(id)) {
+				// `if kind != F16 { return err }` before the write: the fact on the way to it
+				if _, isB := ast.Unparen(a.Expr).(*ast.BinaryExpr); isB && isKind(a.Expr) {
+					in = true
+				}
 			}
 			for _, anc := range ancestorsOf(f.Body, id) {
 				switch x := anc.(type) {
@@ -593,7 +602,7 @@ func extra11C02(c *Ctx) {
 		}
 		n++
 		ok = false
-		for _, a := range g.AtomsAt(g.Locate(ue)) {
+		for _, a := range factsAt(info, f.Body, g, g.Locate(ue)) {
 			be, isB := ast.Unparen(a.Expr).(*ast.BinaryExpr)
 			if !isB || !mentionsSel(be, "ProcessState") {
 				continue
@@ -679,6 +688,59 @@ func extra11C07(c *Ctx) {
 		c.Check(rule, f.Key()+" asks every wrapped cache", c.Pos(f.Decl), false, "no loop over the wrapped caches: the answer is not the conjunction of theirs (accepted form: loop, return false on the first refusal, return true after it)")
 		return
 	}
+	// the accumulator spelling: `ok := true; for i := 0; ok && i < len(c.caches); i++ { ok = c.caches[i].CanResume(..) }; return ok`
+	if fs, isFor := loop.Stmt.(*ast.ForStmt); isFor {
+		rets := g.Returns()
+		if len(rets) == 1 && len(rets[0].Return.Results) == 1 && !within(loop.Stmt, rets[0].Return) {
+			if id, isId := ast.Unparen(rets[0].Return.Results[0]).(*ast.Ident); isId {
+				acc := info.Uses[id]
+				initTrue, stepsOK, nSteps := false, true, 0
+				ast.Inspect(f.Body, func(nd ast.Node) bool {
+					as, isAs := nd.(*ast.AssignStmt)
+					if !isAs || len(as.Lhs) != 1 || len(as.Rhs) != 1 {
+						return true
+					}
+					lid, isL := as.Lhs[0].(*ast.Ident)
+					if !isL || info.ObjectOf(lid) != acc {
+						return true
+					}
+					if tv, has := info.Types[as.Rhs[0]]; has && tv.Value != nil {
+						if tv.Value.String() == "true" && !within(loop.Stmt, as) {
+							initTrue = true
+						} else {
+							stepsOK = false
+						}
+						return true
+					}
+					rhs := ast.Unparen(as.Rhs[0])
+					if be, isB := rhs.(*ast.BinaryExpr); isB && be.Op == token.LAND && isIdentOf(info, be.X, acc) {
+						rhs = ast.Unparen(be.Y)
+					} else {
+						// a plain store needs the loop to stop at the first false
+						stops := false
+						for _, cj := range conjunctsOf(info, f.Body, fs.Cond, true) {
+							if cj.Val && isIdentOf(info, cj.Expr, acc) {
+								stops = true
+							}
+						}
+						if !stops {
+							stepsOK = false
+						}
+					}
+					if call, isC := rhs.(*ast.CallExpr); isC && strings.HasSuffix(core.CalleeName(info, call), ".CanResume") && within(loop.Stmt, as) {
+						nSteps++
+					} else {
+						stepsOK = false
+					}
+					return true
+				})
+				if acc != nil && initTrue && stepsOK && nSteps == 1 {
+					c.Check(rule, f.Key()+" conjunction kept in an accumulator", c.Pos(loop.Stmt), true, "")
+					return
+				}
+			}
+		}
+	}
 	sawFalse := false
 	for _, ex := range g.Returns() {
 		if len(ex.Return.Results) != 1 {
@@ -752,6 +814,42 @@ func extra11C07(c *Ctx) {
 			c.Check(rule, pf.Key()+" loop reads the current element", c.Pos(fs), uses >= 1, "the loop over "+list.Name()+" never reads the element of the current round")
 			return true
 		})
+		// the range spelling: `for _, img := range images[1:]`
+		ast.Inspect(pf.Body, func(nd ast.Node) bool {
+			rs, ok := nd.(*ast.RangeStmt)
+			if !ok {
+				return true
+			}
+			se, isSl := ast.Unparen(rs.X).(*ast.SliceExpr)
+			if !isSl || se.Low == nil {
+				return true
+			}
+			lid, isLid := ast.Unparen(se.X).(*ast.Ident)
+			vid, isVid := rs.Value.(*ast.Ident)
+			if !isLid || !isVid {
+				return true
+			}
+			list, val := pinfo.Uses[lid], pinfo.Defs[vid]
+			nLoops++
+			uses := 0
+			ast.Inspect(rs.Body, func(m ast.Node) bool {
+				switch x := m.(type) {
+				case *ast.Ident:
+					if pinfo.Uses[x] == val && val != nil {
+						uses++
+					}
+				case *ast.IndexExpr:
+					if isIdentOf(pinfo, x.X, list) {
+						if _, isC := core.ConstInt(pinfo, x.Index); isC {
+							c.Check(rule, pf.Key()+" no fixed element inside the loop", c.Pos(x), false, "`"+core.ExprString(x)+"` inside the loop over "+list.Name()+": the same element on every round")
+						}
+					}
+				}
+				return true
+			})
+			c.Check(rule, pf.Key()+" loop reads the current element", c.Pos(rs), uses >= 2, "the loop over "+list.Name()+" does not read both the image and the hash of the current element")
+			return true
+		})
 		c.Expect(rule, "loops bounded by a list length in mllama PostTokenize", nLoops, 1)
 	}
 }
@@ -800,13 +898,20 @@ func extra11C13(c *Ctx) {
 		c.Undecided(rule, "anchor:names.Name.n", "-", "anchor lost")
 		return
 	}
-	// the statements that assign the namespace part (the slash case, however it is spelled)
+	// the statements that assign the namespace part (the slash case, however it is spelled), and the
+	// locals whose value they store (`parsed.h, parsed.n = host, namespace`)
 	var nsStores []core.Loc
+	nsLocals := map[types.Object]bool{}
 	ast.Inspect(f.Body, func(nd ast.Node) bool {
 		if as, isAs := nd.(*ast.AssignStmt); isAs {
-			for _, l := range as.Lhs {
+			for i, l := range as.Lhs {
 				if se, isSel := l.(*ast.SelectorExpr); isSel && core.FieldVar(info, se) == fNS {
 					nsStores = append(nsStores, g.Locate(as))
+					if len(as.Rhs) == len(as.Lhs) {
+						if id, isId := ast.Unparen(as.Rhs[i]).(*ast.Ident); isId && info.Uses[id] != nil {
+							nsLocals[info.Uses[id]] = true
+						}
+					}
 				}
 			}
 		}
@@ -839,6 +944,9 @@ func extra11C13(c *Ctx) {
 			tests := false
 			ast.Inspect(cb.Cond, func(m ast.Node) bool {
 				if se, isSel := m.(*ast.SelectorExpr); isSel && core.FieldVar(info, se) == fNS {
+					tests = true
+				}
+				if id, isId := m.(*ast.Ident); isId && nsLocals[info.Uses[id]] {
 					tests = true
 				}
 				return true
@@ -940,7 +1048,7 @@ func extra11C09(c *Ctx) {
 			if !isIf || !within(ifs.Body, call) {
 				continue
 			}
-			ast.Inspect(ifs.Cond, func(m ast.Node) bool {
+			ast.Inspect(resolveLocal(info, f.Body, ifs.Cond), func(m ast.Node) bool {
 				if be, isB := m.(*ast.BinaryExpr); isB && be.Op == token.EQL {
 					if x, _, isNil := core.IsNilCheck(info, be); isNil {
 						if id, isId := ast.Unparen(x).(*ast.Ident); isId && fromGet[info.Uses[id]] {
@@ -1146,7 +1254,7 @@ func extra11C20(c *Ctx) {
 	}
 	var tests []core.Loc
 	for _, cb := range g.CondBlocks() {
-		if cb.Cond != nil && mentionsCtl(cb.Cond) {
+		if cb.Cond != nil && (mentionsCtl(cb.Cond) || mentionsCtl(resolveLocal(info, f.Body, cb.Cond))) {
 			tests = append(tests, g.CondLoc(cb.B))
 		}
 	}
@@ -1173,7 +1281,7 @@ func extra11C20(c *Ctx) {
 		if !decodedValue(info, f.Body, call.Args[0]) {
 			continue
 		}
-		for _, a := range g.AtomsAt(g.Locate(call)) {
+		for _, a := range factsAt(info, f.Body, g, g.Locate(call)) {
 			if be, isB := ast.Unparen(a.Expr).(*ast.BinaryExpr); isB && core.UsesObj(info, be, ctl) && ((be.Op == token.EQL && a.Val) || (be.Op == token.NEQ && !a.Val)) {
 				verbatim = true
 			}
@@ -1241,14 +1349,27 @@ func extra11C12(c *Ctx) {
 					if !isIf {
 						continue
 					}
-					ast.Inspect(ifs, func(m ast.Node) bool {
-						if as, isAs := m.(*ast.AssignStmt); isAs && len(as.Lhs) == 1 && len(as.Rhs) == 1 && selName(as.Lhs[0]) == "Parts" {
-							if id, isId := ast.Unparen(as.Rhs[0]).(*ast.Ident); isId && id.Name == "nil" {
-								dropped = true
+					dropsParts := func(root ast.Node) bool {
+						found := false
+						ast.Inspect(root, func(m ast.Node) bool {
+							if as, isAs := m.(*ast.AssignStmt); isAs && len(as.Lhs) == 1 && len(as.Rhs) == 1 && selName(as.Lhs[0]) == "Parts" {
+								if id, isId := ast.Unparen(as.Rhs[0]).(*ast.Ident); isId && id.Name == "nil" {
+									found = true
+								}
 							}
+							return true
+						})
+						return found
+					}
+					if dropsParts(ifs) {
+						dropped = true
+					}
+					// or the branch calls a local closure that does
+					for _, bc := range core.Calls(ifs, false) {
+						if lit, isLit := resolveLocal(info, f.Body, bc.Fun).(*ast.FuncLit); isLit && dropsParts(lit) {
+							dropped = true
 						}
-						return true
-					})
+					}
 				}
 				if dropped {
 					ok = true
@@ -1287,4 +1408,54 @@ func decodedValue(info *types.Info, body ast.Node, e ast.Expr) bool {
 	}
 	call, ok := e.(*ast.CallExpr)
 	return ok && core.CalleeName(info, call) == "model.Vocabulary.Decode"
+}
+
+// resolveLocal replaces an identifier that names a local defined exactly once by the expression it was
+// defined with (one step); anything else is returned unchanged.
+func resolveLocal(info *types.Info, body ast.Node, e ast.Expr) ast.Expr {
+	e = ast.Unparen(e)
+	if id, ok := e.(*ast.Ident); ok {
+		if v, isV := info.Uses[id].(*types.Var); isV && v.Parent() != nil && v.Pkg() != nil && v.Parent() != v.Pkg().Scope() {
+			if rhs, _, cnt := singleDef(info, body, v); cnt == 1 && rhs != nil {
+				return ast.Unparen(rhs)
+			}
+		}
+	}
+	return e
+}
+
+// conjunctsOf splits a (resolved) condition into its && operands, resolving tested locals on the way.
+func conjunctsOf(info *types.Info, body ast.Node, e ast.Expr, val bool) []struct {
+	Expr ast.Expr
+	Val  bool
+} {
+	type fv = struct {
+		Expr ast.Expr
+		Val  bool
+	}
+	e = resolveLocal(info, body, e)
+	if ue, ok := e.(*ast.UnaryExpr); ok && ue.Op == token.NOT {
+		return conjunctsOf(info, body, ue.X, !val)
+	}
+	if be, ok := e.(*ast.BinaryExpr); ok {
+		if (be.Op == token.LAND && val) || (be.Op == token.LOR && !val) {
+			return append(conjunctsOf(info, body, be.X, val), conjunctsOf(info, body, be.Y, val)...)
+		}
+	}
+	return []fv{{e, val}}
+}
+
+// factsAt: the atoms at a location, with tested locals resolved and split into conjuncts.
+func factsAt(info *types.Info, body ast.Node, g *core.Graph, loc core.Loc) []struct {
+	Expr ast.Expr
+	Val  bool
+} {
+	var out []struct {
+		Expr ast.Expr
+		Val  bool
+	}
+	for _, a := range g.AtomsAt(loc) {
+		out = append(out, conjunctsOf(info, body, a.Expr, a.Val)...)
+	}
+	return out
 }
